@@ -53,10 +53,16 @@ RepTail == {"lf"}
 ModelBytes(m) == IF m \in DOMAIN ExtTable THEN ExtTable[m]
                  ELSE IF m = "rand1" THEN <<7>> ELSE <<7, 77, 177>>
 
+\* length of the certification path (sgx) / number of unrelated extra elements (ledger): the shape of
+\* a production file, and files at scale
+BaseLen(plat) == IF plat = "ledger" THEN 0 ELSE 5
+ScaleLens(plat) == IF plat = "ledger" THEN {250, 300} ELSE {255, 256, 257, 258, 300, 400}
+
 Good(plat, fmt) ==
     [plat |-> plat, args |-> "ok", root |-> "right", certfile |-> "ok", file |-> BaseFile,
      btc |-> Btc, mh |-> BaseHash,
      targets |-> IF plat = "ledger" THEN <<"ui", "signer">> ELSE <<"quote">>, brk |-> <<>>,
+     plen |-> BaseLen(plat),
      ui |-> IF plat = "ledger"
             THEN [exists |-> "t", chain |-> "intact", hdr |-> "ok", sepc |-> "dot", key |-> 1,
                   len |-> "exact", at |-> "none", m |-> "na", n |-> 0, tail |-> "any"]
@@ -142,11 +148,17 @@ TargetLists(plat) ==
                <<"ui", "signer", "device", "attestation">>}
          \cup {<<"ui", "ui", "signer">>, <<"ui", "signer", "signer">>, <<"ui", "signer", "ui">>,
                <<"device", "device", "ui", "signer">>}
-    ELSE UNION {{<<a, "quote">>, <<"quote", a>>} : a \in {"ca", "qe", "att"}}
+    ELSE UNION {{<<a, "quote">>, <<"quote", a>>} : a \in {"ca", "mid", "qe", "att"}}
          \cup {<<"ca", "qe", "att", "quote">>, <<"att", "qe", "ca", "quote">>, <<"quote", "ca", "qe", "att">>}
          \cup {<<"quote", "quote">>, <<"ca", "ca", "quote">>, <<"ca", "quote", "quote">>}
 DevTargets == /\ inp.targets = DocTargets(inp.plat)
               /\ \E l \in TargetLists(inp.plat) : Dev(Sync([inp EXCEPT !.targets = l]))
+\* the file is long
+DevLen   == /\ inp.plen = BaseLen(inp.plat)
+            /\ \E n \in ScaleLens(inp.plat) : Dev([inp EXCEPT !.plen = n])
+\* ... which is combined with the deviations that concern the chain only
+ChainDevs == Len(inp.brk) + (IF inp.root = "wrong" THEN 1 ELSE 0)
+             + (IF inp.targets # DocTargets(inp.plat) THEN 1 ELSE 0)
 \* one more element does not verify under its certifier
 ElemOrder == IF IsL THEN LedgerOrder ELSE SgxOrder
 DevBrk   == \E e \in Range(ElemOrder) \ Range(inp.brk) :
@@ -188,6 +200,7 @@ NonRep(t) == \/ t.at \in {"suffix", "prefix"} /\ t.m \notin RepExt
              \/ t.tail \notin RepTail \cup {"any", "na"}
 Start    == /\ pc = "env" /\ pc' = (IF IsL THEN "l1" ELSE "s1")
             /\ ndev <= FullExt \/ ~(NonRep(inp.pow) \/ (IsL /\ NonRep(inp.ui)))
+            /\ inp.plen = BaseLen(inp.plat) \/ ndev = 1 + ChainDevs
             /\ UNCHANGED <<inp, ndev, nfile, outcome, site, printed, sys>>
 
 (***************************************************************************)
@@ -313,7 +326,7 @@ S_Return     == /\ pc = "s13" /\ pc' = "done" /\ outcome' = "return" /\ site' = 
                                              !.mrsigner = PySlice(S.quote, 176, 208)], S.pow)
                 /\ UNCHANGED <<inp, ndev, nfile, sys>>
 
-EnvNext == DevArgs \/ DevRoot \/ DevCert \/ DevFile \/ DevHash \/ DevUi \/ DevPow \/ DevTargets \/ DevBrk \/ Start
+EnvNext == DevArgs \/ DevRoot \/ DevCert \/ DevFile \/ DevHash \/ DevUi \/ DevPow \/ DevTargets \/ DevBrk \/ DevLen \/ Start
 SysNext == \/ L_NoCert \/ L_NoPub \/ L_RootHex \/ L_RootParse \/ L_LoadKeys \/ L_HashKeys \/ L_BtcKey
            \/ L_LoadCert \/ L_Validate \/ L_NoUi \/ L_UiInvalid \/ L_UiHeader \/ L_UiLength \/ L_UiKey \/ L_UiPrint
            \/ L_NoSigner \/ L_SgInvalid \/ L_SgHeader \/ L_SgLength \/ L_SgHash \/ L_Return
